@@ -1,47 +1,85 @@
 #!/usr/bin/env python3
-"""Writes /verif/MANIFEST.json from the table below (kept in one place so that it stays valid)."""
+"""Writes /verif/MANIFEST.json from the tables below (kept in one place so that it stays valid)."""
 import json
-NA_REASON = "check not built yet (work in progress): no claim is made until a Lean model, its theorems and a tie to the code exist"
-checks = {
- "C16": dict(
-    category="proof",
+
+checks = {}
+
+checks["C16"] = dict(category="proof", design="§4 C16",
     text="Theorems (Props/C16.lean) over the Lean definitions REGENERATED from common/bytes/bytes.go and the lw/sw bodies of risc/opcodes.go on every run: split;join = id for all 2^32 words, join;split = id for all 2^32 byte quadruples, byte i = bits 8i..8i+7, neither direction can panic, sw then lw returns the stored value. The quantifier is closed by proof, not by enumeration; a change to the Go source changes the generated definitions and re-opens the proofs.",
     note="Trusted: Lean kernel (+leanchecker in thorough), axioms propext/Classical.choice/Quot.sound only, the Go->Lean translator and Model/GoInt (validated every run by running the generated definitions against the real functions), harness/driver. Search when a proof or the tie breaks: Go functions vs encoding/binary on a stratified sample, and all 2^32 values in thorough (or whenever something is broken).",
-    technique="Lean 4 proof over a model regenerated from the Go source (translator), bit-extensionality; correspondence stream + exhaustive 2^32 Go sweep as search",
-    design="§4 C16"),
- "C02": dict(
-    category="proof",
+    technique="Lean 4 proof over a model regenerated from the Go source (translator), bit-extensionality; correspondence stream + exhaustive 2^32 Go sweep as search")
+
+checks["C02"] = dict(category="proof", design="§4 C02",
     text="One theorem per instruction struct of risc/opcodes.go (45) plus their conjunction, over Lean definitions REGENERATED from the Go bodies on every run: for every context, forward slot, operand value, register choice (x0 and aliases included), immediate and label map, the Go Run body yields exactly the outcome of the RV32IM specification Spec.exec (a Go error iff division by zero / undefined label; never a panic; no direct register-file write); ReadRegisters/WriteRegisters equal the ISA read/write sets modulo x0; MemoryRead/MemoryWrite equal the accessed byte addresses; x0 ignores writes and reads 0.",
     note="Trusted: as C16, plus Spec/Exec.lean (the RV32IM reading: div-by-zero and undefined label are errors, ret halts), Model/Roles.lean (ISA role of each Go field, cross-checked per case against the text the Go parser accepted), Model/Rat.lean for the rename-table reads inside registerRead (tied by C15). Search: every generated single-instruction case is run on the real code (risc.Parse + Run + the four declaration methods) and compared with both the generated definitions (tie) and Spec.exec (property); a difference is reported with the instruction text and operand values as replay.",
-    technique="Lean 4 proof over a model regenerated from the Go source (translator); differential Go vs Lean spec on boundary lattice + random as correspondence and search",
-    design="§4 C02"),
- "C13": dict(
-    category="proof",
+    technique="Lean 4 proof over a model regenerated from the Go source (translator); differential Go vs Lean spec on boundary lattice + random as correspondence and search")
+
+checks["C11"] = dict(category="proof", design="§4 C11",
+    text="17 theorems (Props/C11.lean) over a hand-written byte-level Lean model of risc.Parse (Go TrimSpace/ToLower tables, first-space split, label test, comment cut, ParseInt, parseOffsetReg), for ALL byte strings: parsing never panics; for accepted text the instruction count equals the number of instruction lines of an independent classifier, a label maps to 4 x the number of instruction lines before its last definition, instruction j depends only on line j, registers are decoded by name (both spellings) and immediates by decimal value with sign and range, the canonical printing of every well-formed instruction/program parses back to it, and the listed layout edits (blank/comment lines, indentation, trailing comments, mnemonic case) do not change the result — except the re-spelling of a bare `j` line (proved counterexample, recorded finding C11-bare-j).",
+    note="Trusted: Lean kernel, standard axioms, the hand model Model/Parser.lean (+ParserRef.lean notions), tied to risc/parser.go on every run by ~1.9e5 texts (res/*.asm, all mnemonics x registers x spellings, 20 grammar-directed mutation kinds, arbitrary bytes, layout-edit pairs) compared output-for-output, Go's unicode tables swept against the model's; an independent Python reading of the text judges Go's output. Agreement with Spec.Asm on canonical text is an executable check, not a theorem.",
+    technique="Lean 4 proof by induction over the line list on a hand model; lock-step correspondence + independent oracle + grammar-directed mutation stream as tie and search")
+
+checks["C13"] = dict(category="proof", design="§4 C13",
     text="24 theorems (Props/C13.lean) over a hand-written Lean model that keeps the Go representation (MRU-first line list; LRU-first key order), for ALL geometries (line length >= 1, any number of lines) and ALL operation histories within the type's non-overlap contract (an explicit decidable hypothesis, with a proved counterexample when it is dropped): a read returns the last write since the line's insertion, presence = coverage by a resident line, PushLine displaces the least-recently-used line AND reports that line's contents, capacity is restored after the reported victim is removed (both push APIs), sub-line extraction, and the same recency laws for the key-value LRU (put on a full map removes the least recently touched key; get/find/put move to most-recent; Find returns the least recent member).",
     note="Trusted: Lean kernel, the three standard axioms, the hand model Model/LineCache.lean + Model/KvLru.lean (tied to proc/comp/cache.go and common/cache/lru.go by the lock-step correspondence stream on every run: geometries (2,6),(4,4),(4,16),(64,1024),(128,4096) and random ones, slice-aliasing probes, bounded-exhaustive short histories), the independent Python reference that judges the Go outputs (byte->value map + recency stamps), harness/driver. int32 address overflow is outside the model.",
-    technique="Lean 4 proof (invariant + refinement to a history-defined reference) on a hand model; lock-step correspondence Go vs model + independent reference oracle as tie and search",
-    design="§4 C13"),
- "C14": dict(
-    category="proof",
+    technique="Lean 4 proof (invariant + refinement to a history-defined reference) on a hand model; lock-step correspondence Go vs model + independent reference oracle as tie and search")
+
+checks["C14"] = dict(category="proof", design="§4 C14",
     text="31 theorems (Props/C14.lean) over hand-written Lean models of SimpleBus, BufferedBus, Queue and Broadcast, for ALL capacities and ALL operation histories (items carry the index of their Add as unique id): conservation (added = returned + inside + cleaned, as multisets; at most one delivery per id), FIFO for Get and order-preservation under Pick, latency (an item added in cycle c is not delivered before a Connect(c') with c' >= c+1; SimpleBus: not before the second Get), capacity under polite producers, Clean/Flush empties and forgets. The clause `a reverted item is the next one delivered` is FALSE of the code when the visible queue is non-empty: kept as Full_C14_revert_next with a proved refutation and a proved partial version (queue empty) — recorded known finding KF-C14-revert (dead API).",
     note="Trusted: Lean kernel, the three standard axioms, the hand model Model/Bus.lean (tied to proc/comp/bus.go, queue.go, broadcast.go by the lock-step stream on every run: capacities 1..4 x 1..4, ~70% polite producers, plus bounded-exhaustive histories up to length 6-9), the independent Python oracle on id lists, harness/driver. Not modelled: the goroutine/channel inside Queue.Iterator (thorough runs the stream under -race), Go int overflow of cycle+1.",
-    technique="Lean 4 proof by induction over operation histories on a hand model; lock-step correspondence + bounded-exhaustive histories + independent oracle as tie and search",
-    design="§4 C14"),
+    technique="Lean 4 proof by induction over operation histories on a hand model; lock-step correspondence + bounded-exhaustive histories + independent oracle as tie and search")
+
+checks["C15"] = dict(category="proof", design="§4 C15",
+    text="45 theorems (Props/C15.lean) over hand models of the Context transaction/rename operations (Model/Txn.lean) and of comp.RAT (Model/Rat.lean), with the read precedence taken from the REGENERATED Gen.registerRead, for ALL ring lengths and ALL write histories: commit publishes the youngest write (also beyond the slots), rollback(s) publishes the youngest write older than s and leaves the register UNCHANGED if there is none, a tagged read never returns a younger write (rename table), plain reads return the youngest value beyond the slots, whole-history refinement across epochs, and order-independence of the six map-range loops. With non-monotone tag order per register the code keeps the last written value: proved counterexamples + partial theorems (findings C15-tag-order, C15-map-read-ignores-tag).",
+    note="Trusted: Lean kernel, standard axioms, hand models Model/Txn.lean and Model/Rat.lean tied to risc/app.go and proc/comp/rat.go by the lock-step stream (real risc.Context driven through its exported methods, reads observed through a parsed `mv` run with a tag; comp.RAT directly for L=1..10; bounded-exhaustive short histories over all tag orders); a Python reference (list of uncommitted writes) judges the Go outputs and classifies divergences by the theorems' hypotheses.",
+    technique="Lean 4 proof (refinement to the list of uncommitted writes) on hand models + regenerated read precedence; lock-step correspondence + bounded-exhaustive histories as tie and search")
+
+checks["C12"] = dict(category="proof", design="§4 C12",
+    text="Theorems (Props/C12.lean) about Model.Seq, the cycle-accurate Lean model of proc/mvp1 and proc/mvp2 built from REGENERATED instruction semantics, latency constants, Cycles() and package constants: MVP-1's cycle count is exactly the sum over executed instructions of fetch+decode+optional memory read+execute+write-back; MVP-2 ends every run exactly like MVP-1 (same halt, same final state, same instruction count) and is never slower; the count is at least the number of executed instructions (hence positive). For MVP-3..8 the clauses (positivity, instructions/width bound, value-independence) are checked dynamically only (partial).",
+    note="Trusted: as C02 plus Model/SeqMachine.lean (hand-written loop structure), tied on every run: Go MVP-1/MVP-2 cycle counts must equal the model's exactly on every generated program (well-formed or not), and the model's final state must equal Spec.run's. Dynamic part: all 12 variants x parallelism 1..4, twin inputs (same program, other operand values and memory contents) with identical reference path and address trace must take the same number of cycles.",
+    technique="Lean 4 proof (induction over the run, comparison of fetch policies) on a hand model built from regenerated parts; exact cycle correspondence with the Go machines; differential + twin inputs for the other variants")
+
+checks["C08"] = dict(category="proof", design="§4 C08",
+    text="What Lean carries: the order-independence theorems for every map-range loop of risc/app.go (Props.C15.*_order_irrelevant: Commit, Rollback, InitRAT, RATCommit, RATRollback, RATFlush give equivalent contexts for ANY permutation of the entries) and a reviewed inventory of goroutines and package-level variables that must not change unnoticed. What a Lean model cannot exhibit (goroutine interleavings, another process, reuse of a parsed program) is checked dynamically and labelled partial: every input runs 3x in one process (the third run on a parsed program already used by another machine) and again in a second process; status, cycles, registers and memory must be bit-identical. Recorded finding KF-ooo-rename: the renaming variants choose among in-flight writers in Go map order, so repeated runs can differ.",
+    note="Partial by nature: map iteration order and goroutine scheduling are sampled, not enumerated; the MSI and control-unit map loops are not modelled (their order-dependence is what KF-ooo-rename records). Not-well-formed programs (a Go panic can leave a map-order-dependent partial state) are excluded.",
+    technique="Lean 4 proof of permutation-invariance lemmas + source inventory tripwire; repeated and cross-process execution as dynamic complement")
+
+CPU_NOTE = ("Oracle: Spec.run (lean/MajoranaVerif/Spec/Run.lean, trusted, compiled). Every generated program runs on the real code of each selected variant x parallelism 1..4 in worker processes under the verif tick budget and a wall-clock watchdog; registers, memory hash and status are compared with the reference; a divergence outside every KNOWN_FINDINGS trigger is a VIOLATION with the shrunk program as replay. "
+            "What is PROVED in Lean beneath this property: the instruction layer (C02: every Go instruction body equals Spec.exec) and the sequential machines MVP-1/MVP-2 (Model.Seq, tied to Go by exact agreement of status, cycles and final state, and compared with Spec.run on every case). MVP-3..8 have NO Lean machine model: for them this check is a differential exploration, not a proof; the superscalar variants carry the recorded findings KF-ooo-load / KF-ooo-spec-error / KF-ooo-rename (DESIGN §8), which excuse only runs inside their trigger predicates.")
+CPU_LEVEL = " LEVEL: differential exploration against a Lean specification, not a machine-level proof (see level_note)."
+cpu_props = {
+    "C01": ("Every variant computes the sequential architectural result: all generator families, all 12 variants x parallelism 1..4, final registers and memory against Spec.run.", "§4 C01"),
+    "C03": ("Wrong-path instructions leave no trace: taken branches and jumps whose shadow holds register writes, stores, loads from any address, jal, division by zero, undefined labels, a second branch; fast and load-delayed conditions; MVP-4..8.", "§4 C03"),
+    "C04": ("Register dependences (RAW/WAW/WAR): programs over 2-4 registers with chains, fans, WAW and WAR pairs and mixed-latency producers; MVP-4..8.", "§4 C04"),
+    "C05": ("Cache transparency and write-back: load/store programs over 2-16 KB memories (larger than every cache), strides, re-reads after eviction, every first-touch offset; MVP-3..8; loaded values and final memory against flat memory semantics.", "§4 C05"),
+    "C07": ("Termination: every run returns without panic, within the tick budget 8 x MemoryAccess x (instructions+64) and with a cycle count within that bound; a defined error (division by zero, undefined label) is reported as an error value exactly when the sequential run reaches it.", "§4 C07"),
+    "C09": ("Returning completes everything older: the last instructions before ret / the end are cache-missing loads, stores to uncached lines, dependent chains; MVP-4..8.", "§4 C09"),
+    "C10": ("Memory dependences between in-flight loads and stores: store->load, load->store, store->store pairs at distance 1..8 to the same byte/word/line through independent address registers; MVP-4..8.", "§4 C10"),
 }
+for pid, (txt, dref) in cpu_props.items():
+    checks[pid] = dict(category="exploration", design=dref, text=txt + CPU_LEVEL, note=CPU_NOTE,
+                       technique="differential testing of the real machines against a Lean 4 specification (Spec.run) with generator families targeted at the property, shrinking and known-finding trigger predicates; Lean proofs only for the instruction layer (C02) and MVP-1/MVP-2 (C12)")
+
+NA = {
+    "C06": "check under construction (MSI snapshot monitor + abstract protocol model): no claim until the model, its theorems and the snapshot hooks are committed",
+}
+
 allp = [f"C{i:02d}" for i in range(1, 17)]
 m = {
- "version": 1,
- "setup_cmd": "bin/setup",
- "hooks": {"guard": "verif", "enable": "go build -tags verif (the harness in /verif/go is built with it against /repo)",
-           "baseline_off_cmd": "/verif/bin/baseline-check", "source_commits": [], "add_only": True},
- "engines": [
-   {"name": "lean-proof", "path": "lean/", "serves_properties": sorted(checks), "kind_free_text": "Lean 4 library: Spec (trusted statement), Gen (regenerated from /repo each run), Model (hand models), Proofs, Props (property theorems), Driver (compiled line-protocol driver)"},
-   {"name": "go-extract", "path": "go/cmd/extract", "serves_properties": sorted(checks), "kind_free_text": "go/ast + go/types translator Go -> Lean (tie T1)"},
-   {"name": "go-harness", "path": "go/cmd/harness", "serves_properties": sorted(checks), "kind_free_text": "runs the real code in-process, writes line-protocol streams (tie T2)"},
- ],
- "checks": [],
- "not_applicable": [],
- "notes": "See DESIGN.md. Every check regenerates the translated Lean model from /repo's working tree, re-builds the property's theorems, audits axioms, rebuilds the Go harness against /repo and runs the correspondence streams. KNOWN_FINDINGS.json lists fixed defects and recorded findings.",
+    "version": 1,
+    "setup_cmd": "bin/setup",
+    "hooks": {"guard": "verif", "enable": "go build -tags verif (the harness in /verif/go is built with it against /repo)",
+              "baseline_off_cmd": "/verif/bin/baseline-check",
+              "source_commits": ["f346ac5 verif hook: Context.VerifTick, a no-op without the verif build tag, called once per iteration of every Run loop"],
+              "add_only": True},
+    "engines": [
+        {"name": "lean-proof", "path": "lean/", "serves_properties": sorted(checks), "kind_free_text": "Lean 4 library: Spec (trusted statement), Gen (regenerated from /repo each run), Model (hand models), Proofs, Props (property theorems), Driver (compiled line-protocol drivers)"},
+        {"name": "go-extract", "path": "go/cmd/extract", "serves_properties": sorted(checks), "kind_free_text": "go/ast + go/types translator Go -> Lean (tie T1)"},
+        {"name": "go-harness", "path": "go/cmd/harness", "serves_properties": sorted(checks), "kind_free_text": "runs the real code in-process / in worker processes, writes line-protocol streams (tie T2) and whole-CPU differential cases"},
+    ],
+    "checks": [],
+    "not_applicable": [],
+    "notes": "See DESIGN.md. Every check regenerates the translated Lean model from /repo's working tree, re-builds the property's theorems, audits axioms, rebuilds the Go harness against /repo and runs the correspondence streams. KNOWN_FINDINGS.json lists fixed defects and recorded findings.",
 }
 for p in allp:
     if p in checks:
@@ -53,6 +91,6 @@ for p in allp:
             "level_claimed": {"category": c["category"], "text": c["text"], "design_ref": c["design"]},
             "level_note": c["note"], "technique": c["technique"]})
     else:
-        m["not_applicable"].append({"property_id": p, "reason": NA_REASON})
+        m["not_applicable"].append({"property_id": p, "reason": NA.get(p, "no check built")})
 json.dump(m, open("/verif/MANIFEST.json", "w"), indent=1)
-print("checks:", [c["property_id"] for c in m["checks"]])
+print("checks:", [c["property_id"] for c in m["checks"]], "n/a:", [x["property_id"] for x in m["not_applicable"]])
